@@ -12,7 +12,7 @@ use serde_json::{json, Map, Value};
 
 pub struct LalrDiff;
 
-pub const MAX_REF_STATES: usize = 4000;
+pub const MAX_REF_STATES: usize = 20_000;
 
 pub struct Case {
     pub source: Source,
